@@ -4,7 +4,7 @@ import re
 from ..linetables import OPAQUE, TRANSPARENT, _cached, fn_table, struct_iter_table
 from ..panics import constraint
 from ..pe import Clos, Evaluator, ListV, SymObj, Toks, TupleV, explore, show_toks, vkey
-from ..src import Inconclusive, method_calls, render, walk
+from ..src import render_stmt, Inconclusive, method_calls, render, walk
 from ..tables import EXPAND, IMPL_FILES, direction
 from .c01 import cell_of, norm as norm_struct, squash
 
@@ -439,17 +439,23 @@ def r5_r6(chk):
         chk.expect("R5", f"ghost-arm[{gi},{d}]", got == exp, EXPAND, G["fn_line"], "counterpart-only variant arm", expected=exp, found=got)
     chk.rule("R6", "arms keep declaration order: variants, then counterpart-only ghosts, default case last; no reordering adaptor", floor=2)
     fi = repo.fn(EXPAND, "enum_init_block")
-    ext = [render(m["args"][0]).replace(" ", "") for m in method_calls(fi.body, "extend")]
-    ok = len(ext) == 2 and ext[0].startswith("input.variants.iter().map(VariantData::Variant)") and "ghost" in ext[1] and ".map(VariantData::GhostData)" in ext[1]
-    chk.expect("R6", "enum_init_block/order", ok, EXPAND, fi.line, "variants must come first in declaration order, ghosts after", found=ext)
+    # order in which the arm list is filled: source position of the statement that adds the variants vs the one that adds the ghosts
+    src_ = render(fi.body).replace(" ", "")
+    pv = [m_.start() for m_ in re.finditer(r"VariantData::Variant\b", src_)]
+    pg = [m_.start() for m_ in re.finditer(r"VariantData::GhostData\b", src_)]
+    good = bool(pv) and bool(pg) and max(pv) < min(pg) and "input.variants.iter()" in src_
+    bad_ = bool(pv) and bool(pg) and min(pg) < min(pv)
+    chk.shape("R6", "enum_init_block/order", good, bad_, EXPAND, fi.line, what="variants must come first in declaration order, ghosts after", found={"variant_adds": len(pv), "ghost_adds": len(pg)})
     bad = [m["method"] for f_ in ("enum_init_block", "enum_init_block_inner") for m in method_calls(repo.fn(EXPAND, f_).body)
            if m["method"] in ("rev", "sort", "sort_by", "sort_by_key", "sort_unstable", "sort_unstable_by", "reverse", "dedup", "swap", "retain")]
     chk.expect("R6", "no-reordering", not bad, EXPAND, fi.line, "reordering adaptor on the arm list", found=bad)
     fin = repo.fn(EXPAND, "enum_init_block_inner")
     st = fin.body["stmts"]
-    idx_loop = [i for i, s in enumerate(st) if s["k"] == "ExprStmt" and s["expr"]["k"] == "While"]
-    idx_def = [i for i, s in enumerate(st) if "default_case" in render(s.get("expr") or s.get("init") or {"k": "Lit", "lit": {"lk": "str", "v": ""}})]
-    chk.expect("R6", "default-last", bool(idx_loop) and bool(idx_def) and idx_loop[0] < idx_def[0], EXPAND, fin.line, "default case must be pushed after all arms", found=[idx_loop, idx_def])
+    idx_loop = [i for i, s_ in enumerate(st) if (s_.get("expr") or {}).get("k") in ("While", "For", "Loop")]
+    idx_def = [i for i, s_ in enumerate(st) if i not in idx_loop and re.search(r"default_case", render_stmt(s_)) and re.search(r"push|extend|quote_action", render_stmt(s_))]
+    good = bool(idx_loop) and bool(idx_def) and max(idx_loop) < min(idx_def)
+    bad_ = bool(idx_loop) and bool(idx_def) and min(idx_def) < min(idx_loop)
+    chk.shape("R6", "default-last", good, bad_, EXPAND, fin.line, what="default case must be pushed after all arms", found=[idx_loop, idx_def])
 
 
 def run(chk):
